@@ -120,6 +120,10 @@ def eval_factor(obj, asg, model):
     if isinstance(obj, (Integer, Rational)):
         return Fraction(int(obj.p), int(obj.q))
     if isinstance(obj, Number):
+        if obj.is_Float:
+            # hand typed decimal literals of the library (0.5, 0.25): binary
+            # floats convert exactly
+            return Fraction(float(obj))
         return Fraction(obj)
     if isinstance(obj, Pow):
         base, exp = obj.args
